@@ -8,6 +8,10 @@
 mod checks;
 mod comp;
 mod corpus;
+mod exec;
+mod execchecks;
+mod values;
+mod w2;
 mod frontend;
 mod report;
 mod rng;
@@ -54,6 +58,7 @@ fn main() {
             let nshards: usize = arg_value(&args, "--nshards").unwrap().parse().unwrap();
             let start: u64 = arg_value(&args, "--start").map(|s| s.parse().unwrap()).unwrap_or(0);
             let out = PathBuf::from(arg_value(&args, "--out").unwrap());
+            let _ = rayon::ThreadPoolBuilder::new().stack_size(128 << 20).build_global();
             let mut ctx = Ctx::new(&id, tier, seed, shard, nshards, start, out);
             run_worker_on_big_stack(&id, &mut ctx);
             ctx.finish();
@@ -63,6 +68,19 @@ fn main() {
             let text = v["case"]["text"].as_str().unwrap().to_string();
             let (sig, min) = frontend::minimize_c10(&text);
             println!("{sig}\t{min:?}");
+        }
+        "minimize-c09" => {
+            let v: Value = serde_json::from_str(&fs::read_to_string(&args[2]).unwrap()).unwrap();
+            let text = v["case"]["text"].as_str().or(v["case"]["crash_case"].as_str()).unwrap().to_string();
+            let (sig, min) = frontend::minimize_c09(&text, args.get(3).is_some());
+            println!("{sig}\n{min}");
+        }
+        "debug-diag" => {
+            let text = fs::read_to_string(&args[2]).unwrap();
+            let db = comp::build_db(&comp::Config::DEFAULT, comp::Plugins::Default);
+            let c = comp::virtual_crate("test", &text, &comp::latest_settings(), None);
+            let (s, e) = comp::diagnostics(&db, &[c]);
+            println!("errors={e}\n{s}");
         }
         "debug-parse" => {
             let text = fs::read_to_string(&args[2]).unwrap();
@@ -147,6 +165,7 @@ fn spawn_worker(
     start: u64,
     work: &Path,
     attempt: usize,
+    rayon_threads: usize,
 ) -> (Child, PathBuf) {
     let out = work.join(format!("shard_{shard}_{attempt}.json"));
     let log = fs::File::create(work.join(format!("shard_{shard}_{attempt}.log"))).unwrap();
@@ -163,7 +182,7 @@ fn spawn_worker(
         .arg("--out")
         .arg(&out)
         .env_remove("VERIF_TIER")
-        .env("RAYON_NUM_THREADS", std::env::var("VERIF_WORKER_RAYON").unwrap_or("1".into()))
+        .env("RAYON_NUM_THREADS", rayon_threads.to_string())
         .stdin(Stdio::null())
         .stdout(log)
         .stderr(log2)
@@ -204,7 +223,7 @@ fn drive(id: &str, tier: Tier, seed: u64) -> i32 {
     let timeout = Duration::from_secs((spec.worker_timeout_s)(tier));
     let mut running: Vec<Running> = vec![];
     for shard in 0..nshards {
-        let (child, out) = spawn_worker(id, tier, seed, shard, nshards, 0, &work, 0);
+        let (child, out) = spawn_worker(id, tier, seed, shard, nshards, 0, &work, 0, spec.rayon_threads);
         running.push(Running { shard, child, out, started: Instant::now(), restarts: 0 });
     }
     let mut merged = ShardResult::default();
@@ -270,7 +289,7 @@ fn drive(id: &str, tier: Tier, seed: u64) -> i32 {
                 });
                 let shard = r.shard;
                 let attempt = r.restarts + 1;
-                let (child, out) = spawn_worker(id, tier, seed, shard, nshards, idx + 1, &work, attempt);
+                let (child, out) = spawn_worker(id, tier, seed, shard, nshards, idx + 1, &work, attempt, spec.rayon_threads);
                 running[i] = Running { shard, child, out, started: Instant::now(), restarts: attempt };
                 i += 1;
             } else {
